@@ -122,11 +122,11 @@ theorem methodAfter_mwEvs_append (a c l : Option Sid) (t : List Ev) (res : List 
 @[simp] theorem createdScopes_nil : createdScopes [] = [] := rfl
 theorem createdScopes_cons (e : Ev) (t : List Ev) :
     createdScopes (e :: t) = (match e with | .scopeCreated s => [s] | _ => []) ++ createdScopes t := by
-  cases e <;> simp [createdScopes, List.filterMap_cons]
+  cases e <;> simp [createdScopes]
 @[simp] theorem mwIndices_nil : mwIndices [] = [] := rfl
 theorem mwIndices_cons (e : Ev) (t : List Ev) :
     mwIndices (e :: t) = (match e with | .mwRan i .. => [i] | _ => []) ++ mwIndices t := by
-  cases e <;> simp [mwIndices, List.filterMap_cons]
+  cases e <;> simp [mwIndices]
 
 theorem mwIndices_append (a b : List Ev) : mwIndices (a ++ b) = mwIndices a ++ mwIndices b := by
   simp [mwIndices]
